@@ -134,7 +134,7 @@ func (r *poolRun) mapper(point string, kv []any) []any {
 
 // deliver opens one work connection; the goroutine answers StartWorkConn by echoing.
 func (r *poolRun) deliver(runID string) string {
-	c, err := net.DialTimeout("tcp", r.srv.Addr, 2*time.Second)
+	c, err := dialUnique(r.srv.Addr, 2*time.Second)
 	if err != nil {
 		return ""
 	}
@@ -211,7 +211,7 @@ func (r *poolRun) setPolicy(p string) { r.mu.Lock(); r.policy = p; r.mu.Unlock()
 func (r *poolRun) userConn(proxy string, wg *sync.WaitGroup) {
 	defer wg.Done()
 	r.stat("user")
-	c, err := net.DialTimeout("tcp", fmt.Sprintf("127.0.0.1:%d", r.ports[proxy]), time.Second)
+	c, err := dialUnique(fmt.Sprintf("127.0.0.1:%d", r.ports[proxy]), time.Second)
 	if err != nil {
 		r.sink.Emit("drv", "drv.note", "what", "user dial failed", "proxy", proxy)
 		return
